@@ -71,7 +71,11 @@ contract("C19.cache_lock_init",
          modifies=["self.cache_folder", "self.cache_lock_filename", "self.cache_lock", "self.timestamp", "self.write_time",
                    "self.time_threshold"],
          ensures={"C19.L1.init_fields": "self.cache_folder == cache_folder and self.cache_lock is None"
-                                        " and self.write_time == write_time and self.time_threshold == time_threshold"})
+                                        " and self.write_time == write_time and self.time_threshold == time_threshold",
+                  # "two holders of the cache lock for one directory never overlap": the lock file is the entry 'cache_lock.lock' OF that
+                  # directory (os.path.join), so every spelling of the directory names the same file - text concatenation would not
+                  "C19.L1.lock_file_is_the_entry_of_the_locked_folder":
+                      "self.cache_lock_filename == os.path.join(cache_folder, 'cache_lock.lock')"})
 
 # C19 L1/L3: first-use population runs under the folder lock and lets only the documented result escape
 contract("C19.cache_local_versions",
